@@ -8,7 +8,7 @@ import impl
 
 PID = "C14"
 LEAN_MODULES = ["BtcHd.Props.C14", "BtcHd.Props.RealInst.C14"]
-LEAN_MODULES_THOROUGH = ['BtcHd.Props.TrBip32']
+LEAN_MODULES_THOROUGH = ['BtcHd.Props.TrBip32', 'BtcHd.Props.TrWallet']
 TRUSTED_BASE = common.CORE_TRUSTED + ["curve group laws are CurveLaws hypotheses (through C02)"]
 ASSUMPTIONS = ["python-ecdsa implements the secp256k1 group law"]
 RULE = ("export nodes at depth 0..6 of full wallets, six public versions, sub-paths of length 0..4 over normal boundaries, "
